@@ -140,6 +140,9 @@ func main() {
 			err = corr.SweepVsExecutor(d, res, *seed, false)
 		}
 		if err == nil {
+			err = corr.AfterExit(d, res, *seed)
+		}
+		if err == nil {
 			err = corr.StaleDelete(d, res, *seed)
 		}
 	case "C04":
